@@ -326,11 +326,13 @@ def rule_rows(prog, rep, fn):
     def full_category(rows):
         """rows: [(group, serial, atom, residue name, residue number, model)]"""
         data = []
-        for g, ser, an, rn, seq, model in rows:
+        for row in rows:
+            g, ser, an, rn, seq, model = row[:6]
             v = {"group_PDB": g, "id": str(ser), "type_symbol": an[0], "label_atom_id": an, "label_alt_id": ".", "label_comp_id": rn, "label_asym_id": "A",
                  "label_entity_id": "1", "label_seq_id": str(seq), "pdbx_PDB_ins_code": "?", "Cartn_x": f"{ser}.000", "Cartn_y": "2.000", "Cartn_z": "3.000",
                  "occupancy": "1.00", "B_iso_or_equiv": "10.00", "pdbx_formal_charge": "?", "auth_seq_id": str(seq), "auth_comp_id": rn, "auth_asym_id": "A",
                  "auth_atom_id": an, "pdbx_PDB_model_num": str(model)}
+            v.update(row[6] if len(row) > 6 else {})
             data.append([v[i] for i in ITEMS])
         return {"__class__": "DataCategory", "name": "atom_site", "row_count": len(data), "attribute_list": list(ITEMS), "row_list": data, "data": data}
 
@@ -338,7 +340,11 @@ def rule_rows(prog, rep, fn):
               ("ATOM", 6, "C", "ALA", 1), ("ATOM", 7, "O", "ALA", 1), ("HETATM", 8, "N", "MSE", 2), ("HETATM", 9, "CA", "MSE", 2), ("ATOM", 10, "N", "GLY", 3),
               ("ATOM", 11, "CA", "GLY", 3), ("HETATM", 12, "O", "HOH", 101)]
     layouts = [("one model, a cap in front of the chain and a modified residue inside it", [row + (1,) for row in capped]),
-               ("two models, same rows", [row + (1,) for row in capped] + [row + (2,) for row in capped])]
+               ("two models, same rows", [row + (1,) for row in capped] + [row + (2,) for row in capped]),
+               # mmCIF values are free-format text: three decimals, a B factor of 100 and more, a negative one, an occupancy with four decimals
+               ("values written with more digits than the PDB columns hold", [
+                   capped[3] + (1,), capped[4] + (1, {"B_iso_or_equiv": "105.250"}), capped[5] + (1, {"B_iso_or_equiv": "-12.345", "occupancy": "0.5000"}),
+                   capped[6] + (1, {"occupancy": "1.00000"}), capped[9] + (1, {"B_iso_or_equiv": "1234.56"}), capped[10] + (1,)])]
     wa = f"pdb2pqr/cif.py:{fn.lineno} (atom_site)"
     for label, rows in layouts:
         current["atoms"], current["block"] = full_category(rows), {"__class__": "DataContainer"}
@@ -358,7 +364,7 @@ def rule_rows(prog, rep, fn):
                 got.append((cls, rec.get("serial"), model))
             elif cls == "ENDMDL":
                 model += 1
-        want = [(g, ser, m) for g, ser, _a, _r, _s, m in rows]
+        want = [(row[0], row[1], row[5]) for row in rows]
         ok = got == want
         first_bad = next((k for k, (a_, b_) in enumerate(zip(got, want)) if a_ != b_), min(len(got), len(want))) if not ok else None
         r7.add(f"record-order|{label}", ok, f"{label}: {len(rows)} rows -> {len(got)} coordinate records in row order" if ok else
